@@ -107,7 +107,7 @@ def main():
         "setup_cmd": "./setup.sh",
         "hooks": {
             "guard": "--cfg dryoc_verif",
-            "enable": "RUSTFLAGS='--cfg dryoc_verif --cfg chacha20_force_soft' DRYOC_VERIF_HARNESS=<generated harness file> cargo kani -Z stubbing --only-codegen (on a scratch copy of /repo's working tree)",
+            "enable": "RUSTFLAGS='--cfg dryoc_verif --cfg chacha20_force_soft' DRYOC_VERIF_HARNESS=<generated harness file> DRYOC_VERIF_HARNESS_ARGON2=<generated file compiled inside src/argon2.rs, or harness/empty.rs> cargo kani -Z stubbing --only-codegen (on a scratch copy of /repo's working tree)",
             "baseline_off_cmd": "cd /repo && cargo nextest run --workspace --no-fail-fast --tool-config-file pb:/w/lib/nextest.toml --profile pb --test-threads 8 --offline || (cd /repo && cargo test --workspace --no-fail-fast --offline)",
             "source_commits": json.load(open(os.path.join(HERE, "hooks.json")))["source_commits"],
             "add_only": True,
